@@ -196,6 +196,7 @@ fn reproduce(prober: &mut Prober, full: &Spec, differing: usize) -> Option<(Spec
         for round in 0..3 {
             let mut exec = full.clone();
             exec.tier = Tier::Exec;
+            exec.launcher = "exec".to_owned();
             exec.plans = derive_plans(&mut rng, Tier::Exec, 10);
             // keep the two keys that differed in-process among the candidates
             exec.plans[1].key = full.plans[differing].key;
